@@ -63,6 +63,13 @@ pub fn random_opts(rng: &mut Rng) -> StoreOpts {
 	if rng.chance(1, 3) {
 		o.compression = (0..level_count).map(|_| rng.below(2) as u8).collect();
 	}
+	// versioning (all versions kept by compaction, optional B+tree version index) is a valid
+	// configuration for every property, not only for C10
+	if rng.chance(1, 5) {
+		o.versioning = true;
+		o.versioned_index = rng.chance(1, 2);
+		o.retention_ns = 0;
+	}
 	o
 }
 
